@@ -307,13 +307,17 @@ def _same07(s, t):
     return False
 
 
+# call sites that hand an iterable of Python values to the same unguarded conversion (util.prepare_iter_for_array / iterable_to_array_1d)
+C07_ITERABLE_SITES = ('from_records', 'series_from_list', 'series_from_list_rev', 'frame_from_elements', 'frame_from_element_items', 'frame_from_records_items', 'series_from_items')
+
+
 @classifier
 def c07_big_int_float(rec, params):
     case, pairs = _c07_pairs(rec)
     if not pairs or rec.get('clause') != 'lossy':
         return False
     bad = [(s, t) for s, t in pairs if not _same07(s, t)]
-    if case.get('site') in ('series_from_list', 'series_from_list_rev', 'from_records') and \
+    if case.get('site') in C07_ITERABLE_SITES and \
             any(s[0] in ('f', 'F', 'nan', 'c', 'inf') for s, t in pairs):
         # iterables mixing a big int with a float are protected by prepare_iter_for_array (object dtype):
         # a loss there is NOT the known design decision
@@ -333,7 +337,7 @@ def c07_big_int_float(rec, params):
 @classifier
 def c07_bytes_iterable(rec, params):
     case, pairs = _c07_pairs(rec)
-    if case.get('site') not in ('from_records', 'series_from_list', 'series_from_list_rev') or rec.get('clause') != 'lossy':
+    if case.get('site') not in C07_ITERABLE_SITES or rec.get('clause') != 'lossy':
         return False
     sup = [s for s, t in pairs]
     sto = [t for s, t in pairs]
@@ -499,7 +503,7 @@ def c07_bool_in_iterable(rec, params):
     '''an iterable of Python values mixing Booleans with numbers is handed to NumPy, which casts the Booleans to the numeric dtype (True -> 1 / 1.0);
     the numbers themselves are stored unchanged.  Pinned by the repository's own test_frame_display_a (Frame.from_records(((1, 2), (True, False))) is int64).'''
     case, pairs = _c07_pairs(rec)
-    if case.get('site') not in ('from_records', 'series_from_list', 'series_from_list_rev') or rec.get('clause') != 'lossy':
+    if case.get('site') not in C07_ITERABLE_SITES or rec.get('clause') != 'lossy':
         return False
     bad = [(s, t) for s, t in pairs if not _same07(s, t)]
     def bool_to_number(s, t):
@@ -689,7 +693,7 @@ def c03_grown_row_dtype(rec, params):
 def c07_number_in_iterable_with_timedelta(rec, params):
     '''an iterable of Python values mixing a timedelta64 with Booleans / ints is handed to NumPy unguarded, which reads the numbers as durations'''
     case, pairs = _c07_pairs(rec)
-    if case.get('site') not in ('from_records', 'series_from_list', 'series_from_list_rev') or rec.get('clause') != 'lossy':
+    if case.get('site') not in C07_ITERABLE_SITES or rec.get('clause') != 'lossy':
         return False
     if not any(s[0] in ('m', 'mz') for s, _ in pairs):
         return False
